@@ -22,7 +22,7 @@ PROP = "C12"
 RULE = ("life: sequences of 5-14 steps drawn from load(file with 1-3 @service functions, 1-2 names each, supports_response "
         "none|optional|only) / unload / run-time define|redefine|delete inside driver functions / call(data, "
         "return_response) over contexts a,b,c, services pyscript.s1, pyscript.s2, test.s3, variables f,g,h; the bulk avoids "
-        "the six recorded hazard situations, dedicated scenario families inject exactly one of them each; every case is "
+        "the four open hazard situations (two more were repaired and are ordinary cases now), dedicated scenario families inject exactly one of them each; every case is "
         "run under one subsystem and alternates legacy/new.  out: entry point x subsets of {context, blocking, "
         "return_response, limit, plain} with right- and wrong-typed values x target supports_response.  "
         "Non-trivial = at least one registration; distinct by payload.")
@@ -120,15 +120,11 @@ def hazards(p):
             defs = [(o["ctx"], o["fn"], o["var"], o["gen"], [tuple(x) for x in o["decl"]])]
         for (ctx, fn, var, gen, decl) in defs:
             names = [s for s, _ in decl]
-            if len(set(names)) != len(names) and p["legacy"]:
-                out.append((i, "duplicate-name", {s for s in names if names.count(s) > 1}))
+            # (a name given twice by one function – C12-F2 – and a run-time redefinition from another evaluator –
+            #  C12-F3 – were repaired in /repo: no longer hazards, judged like anything else)
             refused = [s for s in names if d.owner(s) not in (None, ctx)]
             if refused and len(set(names)) > 1:
                 out.append((i, "refused-name-aborts-others", set(names)))
-            if new:
-                for s in names:
-                    if d.owner(s) == ctx and evalowner.get(s, (ctx, fn)) != (ctx, fn):
-                        out.append((i, "other-evaluator", set(names)))
             # a redefinition that drops a service another (older) function still declares
             old = [f for f in d.funcs if f["ctx"] == ctx and f["var"] == var]
             for f in old:
@@ -174,8 +170,6 @@ class LifeGen:
         for s in SVCS:
             own = self.d.owner(s)
             if own not in (None, ctx):
-                continue
-            if not self.legacy and own == ctx and self.evalowner.get(s) != (ctx, fn):
                 continue
             ok.append(s)
         return ok
